@@ -30,6 +30,12 @@ def obligations(tier):
                                   weight=nn * 20, budget_s=900 if tier == "quick" else 7200, max_paths=200000))
                 obs.append(Ob(f"{spec_name(('ind', name, kw))}/tf={tf}/n={nn}", dict(spec=["ind", name, kw], n=nn, tf=tf, part=("rounded" if name == "TSI" else "all")), INV_UF if name == "ADX" else INV,
                               weight=nn * (20 if name in EXTRA else 1), budget_s=900 if tier == "quick" else 7200, max_paths=200000))
+    # the relations under naming / rounding / candlestick configurations
+    for name, kw, w, extra in CONFIG_VARIANTS:
+        if "round_value" in extra or name in ("TSI", "VWAP"):
+            continue
+        n = w + 1 + EXTRA.get(name, 3)
+        obs.append(Ob(f"cfg:{spec_name(('ind', name, kw))}{extra}/n={n}", dict(spec=["ind", name, kw], n=n, tf=None, part="all", extra=extra), INV, weight=n * 5, budget_s=300, max_paths=200000))
     # the stored value is the rounding of the defined value: |stored - definition| <= k * 0.5e-4 under the eps rounding model
     # (k roundings lie between the raw candles and the stored value). Catches logic that consults already rounded
     # readings as if they were exact (stale window extremes, drifting running sums beyond the allowed slack).
@@ -77,6 +83,7 @@ def run(ctx, P):
     rv = P.get("rv", 4)
     if "rv" in P:
         common["round_value"] = rv
+    common.update(P.get("extra") or {})
     ind = build(name, kw, candles=cs, **common)
     ind.calculate()
     out = ind.as_list()
